@@ -9,6 +9,7 @@ import hashlib
 import itertools
 import os
 
+from mc import space
 from mc.engine import Fail, result
 from mc.ref import ref_codec_catalogs as rc
 
@@ -281,6 +282,10 @@ BATCH = {'csep-csv': 150, 'jma-csv': 150, 'zmap': 150, 'ingv_horus': 100, 'ndk':
 
 
 def cases(tier, seed):
+    yield from space.with_time_zones(_cases(tier, seed), 12)
+
+
+def _cases(tier, seed):
     # block 1: simplest first -- one plain record, two plain records, per format
     for fmt in rc.FORMATS:
         yield dict(kind='files', fmt=fmt, block='plain',
